@@ -130,7 +130,7 @@ def max_days_in_month(month, year):
 def normalize_year(y, m, d):
     """taking into account negative month and day values"""
     if not (1 <= m <= 12):
-        y_plus = math.floor((m - 1) / 12)
+        y_plus = (m - 1) // 12
         y += y_plus
         m -= y_plus * 12
 
@@ -139,7 +139,8 @@ def normalize_year(y, m, d):
         m -= 1
         y, m, d = normalize_year(y, m, d)
 
-    else:
+    elif d > 28:
+        # no month is shorter (and is_leap_year() refuses a year before 1)
         days_in_month = max_days_in_month(m, y)
         if d > days_in_month:
             m += 1
